@@ -242,7 +242,7 @@ def _bytes_shards():
 @harness(
     "C15",
     shards=_bytes_shards,
-    timeout=(150, 1200),
+    timeout=(300, 1200),
     functions=["dimse_messages:DIMSEMessage.encode_msg", "dimse_messages:DIMSEMessage._generate_pdv_fragments",
                "dimse_messages:DIMSEMessage.decode_msg", "pdu:P_DATA_TF.from_primitive", "pdu:P_DATA_TF.encode",
                "pdu:P_DATA_TF.decode", "pdu:P_DATA_TF.to_primitive", "pdu:P_DATA_TF.pdu_length"],
@@ -349,7 +349,7 @@ class _RecordingDUL:
 
 @harness(
     "C15",
-    timeout=(150, 900),
+    timeout=(300, 900),
     functions=["dimse:DIMSEServiceProvider.send_msg", "dimse:DIMSEServiceProvider.maximum_pdu_size",
                "association:ServiceUser.maximum_length", "dimse_messages:DIMSEMessage.primitive_to_message",
                "dimse_messages:DIMSEMessage.encode_msg", "dimse_messages:DIMSEMessage._generate_pdv_fragments",
